@@ -217,7 +217,15 @@ func runC05(t *core.Tape, st *core.Stats) *core.Violation {
 
 	var err error
 
-	if p := core.Call(func() { c.schema, err = c.spec.BuildSchema(nil) }); p != nil {
+	viaHistory := false
+
+	defer func() {
+		if viaHistory {
+			st.Inc("probe:schema-built-through-edit-history")
+		}
+	}()
+
+	if p := core.Call(func() { c.schema, viaHistory, err = c.spec.BuildSchemaAnyHow(t) }); p != nil {
 		v := viol(p05, "no-panic", p.Func, "build-schema:"+p.Class, "building the schema panicked: %s", p.Value)
 		if st.Fail(v) {
 			return v
